@@ -446,6 +446,9 @@ def oracle(rng, thorough, deep=False, hints=None):
     cases.append(dict(ops=[[1, [0, 2]], [9, [2, 2, 0]], [3, [7, 997, 0]]]))
     cases.append(dict(ops=[[1, [3, 1]], [9, [3, 2, 1]], [9, [1, 2, 0]], [3, [5, 997, 1]]]))
     cases.append(dict(ops=[[1, [0, 1]], [1, [1, 2]], [1, [2, 1]], [9, [2, 1, 0]]]))
+    # image ids with gaps (0 and 3, or 1 and 5) and then a whole batch added: the new tomograms need ids that are all free
+    cases.append(dict(ops=[[1, [0, 2]], [1, [3, 2]], [9, [2, 2, 0]], [3, [7, 997, 0]]]))
+    cases.append(dict(ops=[[1, [1, 1]], [1, [5, 2]], [1, [2, 1]], [9, [3, 1, 0]]]))
     # a tomogram without molecules registered before populated ones
     cases.append(dict(ops=[[1, [2, 0]], [1, [0, 2]], [1, [7, 0]], [1, [1, 3]]]))
     for it in range(24 if big else 8):
